@@ -63,9 +63,9 @@ def _(self: SurveyX) -> None:
     # (= ambiguous: a reference to it is an error) when two or more elements carry it; other names are absent
     ensures(implies(not fresh_needed, final_self._xpath == self._xpath))      # idempotent once built (C14)
     ensures(implies(fresh_needed, final_self._xpath is not None))
-    ensures(implies(fresh_needed, forall_str(lambda s: (s in final_self._xpath) == (CountName(d, n, s) >= 1))))
-    ensures(implies(fresh_needed, forall_str(lambda s: implies(CountName(d, n, s) == 1, final_self._xpath[s] is LastNamed(d, n, s)))))
-    ensures(implies(fresh_needed, forall_str(lambda s: implies(CountName(d, n, s) >= 2, final_self._xpath[s] is None))))
+    ensures(implies(fresh_needed, forall_str(lambda s: (s in some(final_self._xpath)) == (CountName(d, n, s) >= 1))))
+    ensures(implies(fresh_needed, forall_str(lambda s: implies(CountName(d, n, s) == 1, some(final_self._xpath)[s] is LastNamed(d, n, s)))))
+    ensures(implies(fresh_needed, forall_str(lambda s: implies(CountName(d, n, s) >= 2, some(final_self._xpath)[s] is None))))
 
     @loop(0, index="i")
     def _():
